@@ -94,6 +94,11 @@ package base
 // starts with "../" (filepath.Clean leaves ".." components only at the front of a relative path).
 // Create must establish !escapes(name) for every name it accepts; every path of the entry is
 // the state directory joined with the name (and a fixed file name or metadata suffix).
+// The relative path of an entry is built from the very name that Create validated (not from a
+// decoded or otherwise transformed copy of it) and the fixed data file name.
+//@ func localFileEntryFactory.GetRelativePath
+//@   ensures path_is_the_validated_name: result == joined2(name, DefaultDataFileName)
+
 //@ func localFileEntryFactory.Create
 //@   nopanic
 //@   ensures stays_inside: result1 == nil ==> !escapes(name) && !hasPrefix(name, "/")
